@@ -281,8 +281,13 @@ def _column(m, c):
 def _nd_sum(m, c):
     a = _nd(m, c.args[0])
     acc = _zero_of(m, a.ety or _elem_ty(c.argtys[0] if c.argtys else None), c) if a.data == () or True else None
+    ety = a.ety or _elem_ty(c.argtys[0] if c.argtys else None)
+    rng = m.int_range(ety) if ety is not None else None
     for x in a.data:
         acc = num_binop(m, "add", acc, x)
+        if rng is not None and isinstance(acc, int) and not isinstance(acc, bool) and not (rng[0] <= acc <= rng[1]):
+            # integer element type: the fold uses the checked `+` of the element type (overflow-checks are on in the dump, as in dev builds)
+            raise RustPanic("attempt to add with overflow (ndarray sum over %s)" % ety.name)
     return acc
 
 
@@ -537,6 +542,20 @@ def nd_binop(m, op, a, b):
         if sa.shape != sb.shape:
             if len(sb.data) == 1:
                 return Nd(sa.shape, [num_binop(m, op, x, sb.data[0]) for x in sa.data], sa.ety)
+            # ndarray co-broadcasting (numpy rules): shapes are right-aligned, an axis of length 1 (or a missing axis) is repeated
+            ra, rb = tuple(sa.shape), tuple(sb.shape)
+            nd_ = max(len(ra), len(rb))
+            pa, pb = (1,) * (nd_ - len(ra)) + ra, (1,) * (nd_ - len(rb)) + rb
+            if all(x == y or x == 1 or y == 1 for x, y in zip(pa, pb)):
+                import itertools
+                out_shape = tuple(max(x, y) for x, y in zip(pa, pb))
+                def at(arr, shp, idx):
+                    k = 0
+                    for d_, i_ in zip(shp, idx):
+                        k = k * d_ + (0 if d_ == 1 else i_)
+                    return arr.data[k]
+                data = [num_binop(m, op, at(sa, pa, idx), at(sb, pb, idx)) for idx in itertools.product(*[range(d_) for d_ in out_shape])]
+                return Nd(out_shape, data, sa.ety)
             raise RustPanic("ndarray: could not broadcast array from shape: %r to: %r" % (sb.shape, sa.shape))
         return Nd(sa.shape, [num_binop(m, op, x, y) for x, y in zip(sa.data, sb.data)], sa.ety)
     if isinstance(sa, Nd):
